@@ -8,7 +8,7 @@ use crate::model::ModModel;
 use crate::report::*;
 use crate::rng::Rng;
 use crate::scan::{n_threads, par_map};
-use pc_keyboard::{DecodedKey, EventDecoder, HandleControl, KeyCode, KeyEvent, KeyState, Keyboard, ScancodeSet1, ScancodeSet2};
+use pc_keyboard::{DecodedKey, EventDecoder, HandleControl, KeyCode, KeyEvent, KeyState, Keyboard, KeyboardLayout, ScancodeSet1, ScancodeSet2};
 use std::collections::{BTreeMap, BTreeSet, VecDeque};
 
 const BFS_CAP: usize = 200_000;
@@ -379,7 +379,7 @@ fn hostile_histories(rep: &mut Report, uni: &[KeyCode]) {
                 macro_rules! run_kb {
                     ($set:expr) => {
                         {
-                            let mut kb = Keyboard::new($set, NullLayout, HandleControl::Ignore);
+                            let mut kb = Keyboard::new($set, AdvLayout, HandleControl::Ignore);
                             for (i, op) in ops.iter().enumerate() {
                                 let pre = model.bits;
                                 match op {
@@ -795,9 +795,12 @@ pub fn run_c14(rep: &mut Report) {
                             match op {
                                 HOp::Mode(m) => kb.set_ctrl_handling(MODES[*m]),
                                 HOp::Ev(k, st) => {
+                                    // the layout is consulted with the record as it stands when the press arrives (a press of an
+                                    // ordinary key changing the record would be C04's matter, not this property's)
+                                    let pre = kb.get_modifiers().clone();
                                     let got = kb.process_keyevent(KeyEvent::new(*k, *st));
                                     if *st == KeyState::Down && !MOD_KEYS.contains(k) {
-                                        let want = direct.map_keycode(*k, kb.get_modifiers(), kb.get_ctrl_handling());
+                                        let want = direct.map_keycode(*k, &pre, kb.get_ctrl_handling());
                                         n += 1;
                                         if got != Some(want) {
                                             bad = Some((i, *k, bits_from_mods(kb.get_modifiers()), kb.get_ctrl_handling(), got, want));
@@ -835,7 +838,130 @@ pub fn run_c14(rep: &mut Report) {
                 }
             }
         }
-        rep.evaluations += compared;
+        // the same with a user-defined layout that returns arbitrary keys (raw modifier keys included), and two soaks:
+        // two keys pressed alternately without ever being released, and a key re-pressed after exactly 2^8 / 2^16
+        // modifier changes (anything that counts or stamps events with a narrow integer)
+        let mut adv = 0u64;
+        let mut adv_histories: Vec<Vec<HOp>> = Vec::new();
+        for h in 0..(n_hist * 2) {
+            let mut rng = Rng::fork(rep.seed, 0xC14_A000 + h as u64);
+            adv_histories.push(history(&mut rng, &focus, &uni, len));
+        }
+        adv_histories.push((0..70_000).map(|i| HOp::Ev(if i % 2 == 0 { KeyCode::A } else { KeyCode::B }, KeyState::Down)).collect());
+        for period in [256usize, 65_536] {
+            for (tog, last) in [(KeyCode::CapsLock, KeyCode::LShift), (KeyCode::LShift, KeyCode::LControl), (KeyCode::NumpadLock, KeyCode::RAltGr)] {
+                let mut v = vec![HOp::Ev(KeyCode::Numpad7, KeyState::Down), HOp::Ev(KeyCode::A, KeyState::Down)];
+                v.extend((0..period - 1).map(|_| HOp::Ev(tog, KeyState::Down)));
+                v.push(HOp::Ev(last, KeyState::Down));
+                v.push(HOp::Ev(KeyCode::A, KeyState::Down));
+                v.push(HOp::Mode(1));
+                v.extend((0..period - 1).map(|i| HOp::Mode(i % 2)));
+                v.push(HOp::Ev(KeyCode::A, KeyState::Down));
+                adv_histories.push(v);
+            }
+        }
+        for ops in adv_histories.iter() {
+            let r = guarded(|| {
+                let direct = AdvLayout;
+                let mut kb = Keyboard::new(ScancodeSet2::new(), AdvLayout, HandleControl::MapLettersToUnicode);
+                let mut n = 0u64;
+                let mut bad = None;
+                for (i, op) in ops.iter().enumerate() {
+                    match op {
+                        HOp::Mode(m) => kb.set_ctrl_handling(MODES[*m]),
+                        HOp::Ev(k, st) => {
+                            let pre = kb.get_modifiers().clone();
+                            let got = kb.process_keyevent(KeyEvent::new(*k, *st));
+                            if *st == KeyState::Down && !MOD_KEYS.contains(k) {
+                                let want = direct.map_keycode(*k, &pre, kb.get_ctrl_handling());
+                                n += 1;
+                                if got != Some(want) {
+                                    bad = Some((i, *k, bits_from_mods(kb.get_modifiers()), got, want));
+                                    break;
+                                }
+                            }
+                        }
+                    }
+                }
+                (n, bad)
+            });
+            if let Ok((n, bad)) = r {
+                adv += n;
+                if let Some((i, k, m, got, want)) = bad {
+                    let tail: Vec<String> = ops[i.saturating_sub(6)..=i].iter().map(|o| o.show()).collect();
+                    rep.violate(
+                        format!("C14|user-layout|key={:?}|after-ops={}|want={}|got={}", k, if i > 1000 { "many" } else { "few" }, dk_str(&want), odk_str(&got)),
+                        format!(
+                            "Keyboard over a user-defined layout: after {} operations ending in … {} the press of {:?} returned {}, but the installed layout returns {} under the reported modifiers {}",
+                            i,
+                            tail.join(", "),
+                            k,
+                            odk_str(&got),
+                            dk_str(&want),
+                            mods_str(m)
+                        ),
+                        J::obj().with("kind", J::s("events")).with("layout", J::s("AdvLayout")).with("ops_total", J::u(i as u64)).with("last_ops", J::strs(tail)),
+                    );
+                }
+            }
+        }
+        // thorough: the ABA shape with exactly 2^32 changes, and 2^32 presses of two alternating keys (both streamed, own threads)
+        if rep.thorough() {
+            use crate::mon_through::{big_aba, BIG_COMBOS};
+            let n: u64 = 1 << 32;
+            let mut hs = Vec::new();
+            for (c, (tog, alt, last)) in BIG_COMBOS.iter().enumerate() {
+                let (tog, alt, last) = (*tog, *alt, *last);
+                hs.push((c, std::thread::spawn(move || guarded(|| big_aba(AdvLayout, KeyCode::A, tog, alt, last, n)))));
+            }
+            let soak = std::thread::spawn(move || {
+                guarded(|| {
+                    let direct = AdvLayout;
+                    let mut kb = Keyboard::new(ScancodeSet2::new(), AdvLayout, HandleControl::MapLettersToUnicode);
+                    let want = [direct.map_keycode(KeyCode::A, kb.get_modifiers(), HandleControl::MapLettersToUnicode), direct.map_keycode(KeyCode::B, kb.get_modifiers(), HandleControl::MapLettersToUnicode)];
+                    for i in 0..n + 1000 {
+                        let k = if i % 2 == 0 { KeyCode::A } else { KeyCode::B };
+                        let got = kb.process_keyevent(KeyEvent::new(k, KeyState::Down));
+                        if got != Some(want[(i % 2) as usize].clone()) {
+                            return Some((i, k, got, want[(i % 2) as usize].clone(), bits_from_mods(kb.get_modifiers())));
+                        }
+                    }
+                    None
+                })
+            });
+            for (c, h) in hs {
+                if let Ok(Ok(obs)) = h.join() {
+                    rep.count("aba_2_32_histories_over_a_user_layout", 1);
+                    for o in obs {
+                        adv += 1;
+                        let want = AdvLayout.map_keycode(KeyCode::A, &o.pre, o.mode);
+                        if o.got != Some(want.clone()) {
+                            rep.violate(
+                                format!("C14|user-layout|key=A|after-ops=2^32|want={}|got={}", dk_str(&want), odk_str(&o.got)),
+                                format!(
+                                    "Keyboard over a user-defined layout, 2^32-change history #{} ({:?} … then {:?}), press '{}': returned {}, but the installed layout returns {} under the reported modifiers {}",
+                                    c, BIG_COMBOS[c].0, BIG_COMBOS[c].2, o.step, odk_str(&o.got), dk_str(&want), mods_str(bits_from_mods(&o.pre))
+                                ),
+                                J::obj().with("kind", J::s("aba-2^32")).with("layout", J::s("AdvLayout")).with("combo", J::u(c as u64)).with("step", J::s(o.step)),
+                            );
+                        }
+                    }
+                }
+            }
+            if let Ok(Ok(r)) = soak.join() {
+                rep.count("alternating_presses_without_release_in_one_2_32_soak", n + 1000);
+                adv += n + 1000;
+                if let Some((i, k, got, want, m)) = r {
+                    rep.violate(
+                        format!("C14|user-layout|key={:?}|after-ops=2^32-soak|want={}|got={}", k, dk_str(&want), odk_str(&got)),
+                        format!("Keyboard over a user-defined layout: press #{} of A/B pressed alternately without release returned {}, the layout returns {} (modifiers {})", i, odk_str(&got), dk_str(&want), mods_str(m)),
+                        J::obj().with("kind", J::s("soak-2^32")).with("presses", J::u(i)),
+                    );
+                }
+            }
+        }
+        rep.count("user_defined_layout_presses_compared_with_a_direct_call", adv);
+        rep.evaluations += compared + adv;
         rep.count("shipped_layout_presses_compared_with_a_direct_layout_call", compared);
         rep.count("shipped_layout_histories_aborted_by_a_panic(C08_matter)", aborted);
     }
